@@ -1390,9 +1390,10 @@ class TransactionBuilder:
             additional_amount = Value()
 
             for utxo in self.potential_inputs:
-                additional_amount += utxo.output.amount
-                seen_utxos.add(utxo)
-                additional_utxo_pool.append(utxo)
+                if utxo not in seen_utxos and utxo not in self.excluded_inputs:
+                    additional_utxo_pool.append(utxo)
+                    additional_amount += utxo.output.amount
+                    seen_utxos.add(utxo)
 
             for address in self.input_addresses:
                 for utxo in self.context.utxos(address):
